@@ -369,6 +369,11 @@ def corpus_sessions():
     s.cases.append(("hist-corpus", ["new 0", "addo 0 d0.3", "addo 0 d0.0"]))
     s.cases.append(("xp", ["xp d0.0 //e", "xp d0.0 /.", "xp d0.0 //e[2]", "#forms " + json.dumps(["d0.0", [["//e", "/."], ["/.", "//e"], ["//e[2]", "//e", "//e[2]"]]])]))
     out.append(s)
+    # seen by build-C17 through the CLI: union of reverse axes where the later operand contains the root node
+    s = Session("S", {0: "e0(e0(e0())e0()e1(te1(e0(tpe0()e0())e0(e1()))c))"})
+    s.cases.append(("xp", ["xp d0.19 preceding::node()", "xp d0.19 ancestor::node()", "xp d0.19 ancestor::*", "#forms " + json.dumps(
+        ["d0.19", [["preceding::node()", "ancestor::node()"], ["ancestor::node()", "preceding::node()"], ["preceding::node()", "ancestor::*"]]])]))
+    out.append(s)
     for rep in ("W", "N"):
         s = Session(rep, {0: "ce2(te1(t)c)p", 1: "e0(e0()e0())"})
         s.cases.append(("afterall", ["afterall 0"]))
